@@ -60,6 +60,90 @@ def run_send(kind, user, limit, text):
     return {"cfg": cfg, "ev": [{"e": "send", "text": list(text), "stream": list(tr.value()), "exc": exc}]}
 
 
+def run_history(rate, ops):
+    """Several msg/notice calls on ONE client.  rate = 0: lineRate None (lines written at once); rate > 0: lineRate
+    set, the send queue's timer runs on a task.Clock installed as irc.reactor for the duration of the history.
+    ops: ("send", kind, user, limit, text) | ("tick",).  The history ends by advancing the clock until no timer is
+    pending ("drain").  Every event logs the octets that reached the transport during it."""
+    from twisted.words.protocols import irc
+    from twisted.internet import task
+    try:
+        from twisted.internet.testing import StringTransport
+    except ImportError:
+        from twisted.test.proto_helpers import StringTransport
+
+    clock = task.Clock()
+    saved = irc.reactor
+    irc.reactor = clock
+    ev = []
+    try:
+        c = irc.IRCClient()
+        c.performLogin = False
+        if rate:
+            c.lineRate = rate
+        tr = StringTransport()
+        c.makeConnection(tr)
+        tr.clear()
+
+        def wrote():
+            w = list(tr.value())
+            tr.clear()
+            return w
+
+        for op in ops:
+            if op[0] == "send":
+                _, kind, user, limit, text = op
+                exc = ""
+                try:
+                    (c.msg if kind == "msg" else c.notice)("".join(map(chr, user)), "".join(map(chr, text)), limit)
+                except Exception as e:
+                    exc = type(e).__name__
+                ev.append({"e": "send", "kind": kind, "user": list(user), "limit": limit, "text": list(text), "exc": exc, "wrote": wrote()})
+            else:
+                exc = ""
+                try:
+                    clock.advance(rate or 1)
+                except Exception as e:
+                    exc = type(e).__name__
+                ev.append({"e": "tick", "exc": exc, "wrote": wrote()})
+        exc = ""
+        n = 0
+        try:
+            while clock.getDelayedCalls():
+                clock.advance(rate or 1)
+                n += 1
+                if n > 2000:
+                    exc = "NoDrain"
+                    break
+        except Exception as e:
+            exc = type(e).__name__
+        ev.append({"e": "drain", "exc": exc, "wrote": wrote()})
+    finally:
+        irc.reactor = saved
+    return {"cfg": dict(mode="hist", kind="msg", user=[], limit=0, rate=rate), "ops": [list(o) for o in ops], "ev": ev}
+
+
+def random_history(rng, small=False):
+    rate = rng.choice([0, 1, 1, 2])
+    ops = []
+    nmsg = rng.randint(1, 3) if small else rng.randint(1, 4)
+    k = 0
+    for i in range(nmsg):
+        kind = rng.choice(["msg", "notice"])
+        user = [ord(ch) for ch in rng.choice(["u", "#c", "nick", "&x"]) + str(i + 1)]
+        oh = overhead(kind, user)
+        if small:
+            text = [rng.choice([97, 98, 99, 233, SPC, LF]) for _ in range(rng.randint(0, 6))]
+            limit = oh + rng.choice([1, 2, 3])
+        else:
+            text = random_text(rng)
+            limit = oh + rng.choice([1, 2, 3, 5, 8, 13, 20, 40, 100])
+        ops.append(("send", kind, user, limit, text))
+        for _ in range(rng.choice([0, 0, 1, 2, 3])):
+            ops.append(("tick",))
+    return rate, ops
+
+
 def run_quote(level, text):
     from twisted.words.protocols import irc
 
@@ -110,6 +194,32 @@ def random_text(rng):
 
 
 def mutate(t, rng):
+    if t["cfg"]["mode"] == "hist":
+        evs = [e for e in t["ev"] if e["wrote"]]
+        if not evs:
+            return None
+        r = rng.random()
+        e = rng.choice(evs)
+        lines = bytes(e["wrote"]).split(b"\n")[:-1]
+        if r < 0.4:
+            # two lines of the SAME message swapped (the order across messages is free)
+            groups = {}
+            for i, ln in enumerate(lines):
+                groups.setdefault(ln.split(b" :", 1)[0], []).append(i)
+            g = [ix for ix in groups.values() if len(ix) >= 2 and lines[ix[0]] != lines[ix[-1]]]
+            if not g:
+                return None
+            i, j = g[0][0], g[0][-1]
+            lines[i], lines[j] = lines[j], lines[i]
+            e["wrote"] = list(b"".join(x + b"\n" for x in lines))
+        elif r < 0.7:
+            if not lines or not lines[-1].split(b" :", 1)[-1].strip():
+                return None
+            e["wrote"] = list(b"".join(x + b"\n" for x in lines[:-1]))     # last line lost
+        else:
+            del t["ev"][-1]                                     # the drain event dropped: nothing establishes completeness
+            t["ev"].append({"e": "drain", "exc": "NoDrain", "wrote": []})
+        return t
     e = t["ev"][0]
     if e["e"] == "send":
         if e["exc"] or not e["stream"]:
@@ -158,9 +268,102 @@ def variants(kind, user, limit, text):
     return out
 
 
+def _ops_of(t):
+    return [tuple(o) for o in t["ops"]]
+
+
+def _hsize(ops):
+    return sum(len(o[4]) + 3 if o[0] == "send" else 1 for o in ops)
+
+
+def hist_variants(rate, ops, cap=150):
+    """Reductions of a history, biggest first: drop an op, delete chunks of a text, lineRate -> 1."""
+    out = []
+    for i in range(len(ops)):
+        out.append((rate, ops[:i] + ops[i + 1:]))
+    for i, o in enumerate(ops):
+        if o[0] == "send":
+            for lim, tx in variants(o[1], o[2], o[3], o[4])[:40]:
+                out.append((rate, ops[:i] + [("send", o[1], o[2], lim, tx)] + ops[i + 1:]))
+    if rate > 1:
+        out.append((1, ops))
+    return out[:cap]
+
+
+def report_hist(ctx, hists):
+    """Rejected histories (several messages, optional rate-limited queue): classify, shrink, report."""
+    import json
+    if not hists:
+        return
+    r_nolen = {x.idx for x in ctx.validate("IrcSplitTrace", hists, cfg="IrcSplitTraceNoLen.cfg", count=False, shard_size=2000)}
+    ascii_runs = []
+    for t in hists:
+        ops = [("send", o[1], o[2], o[3], [ch if ch < 128 else 97 for ch in o[4]]) if o[0] == "send" else o for o in _ops_of(t)]
+        ascii_runs.append(run_history(t["cfg"]["rate"], ops))
+    r_ascii = {x.idx for x in ctx.validate("IrcSplitTrace", ascii_runs, count=False, shard_size=2000)}
+    rest = []
+    n_multi = 0
+    for i, t in enumerate(hists):
+        multi = any(ch >= 128 for o in _ops_of(t) if o[0] == "send" for ch in o[4])
+        if i not in r_nolen and i not in r_ascii and multi:
+            n_multi += 1
+            ctx.violation("send/line-exceeds-octet-limit/only-with-multi-octet-characters",
+                          "history with multi-octet text: a line exceeds its octet limit (same history with ASCII letters is accepted)",
+                          dict(kind="hist", rate=t["cfg"]["rate"], ops=t["ops"]))
+        else:
+            rest.append(t)
+    ctx.extra["rejected_histories_line_too_long_multi_octet_only"] = n_multi
+    ctx.extra["rejected_histories_other"] = len(rest)
+    if not rest:
+        return
+    key = lambda rate, ops: json.dumps([rate, [list(o) for o in ops]])
+    memo = {}
+    cur = {}
+    for t in sorted(rest, key=lambda t: _hsize(_ops_of(t)))[:12]:
+        cur[key(t["cfg"]["rate"], _ops_of(t))] = (t["cfg"]["rate"], _ops_of(t), t)
+    final = {}
+    for _ in range(14):
+        if not cur:
+            break
+        cand = {}
+        for kk, (rate, ops, t) in cur.items():
+            for r2, o2 in hist_variants(rate, ops):
+                k2 = key(r2, o2)
+                if k2 not in memo and k2 not in cand:
+                    cand[k2] = run_history(r2, o2)
+        if cand:
+            ts = list(cand.values())
+            bad = {x.idx for x in ctx.validate("IrcSplitTrace", ts, count=False, shard_size=3000)}
+            for j, (k2, tr) in enumerate(cand.items()):
+                memo[k2] = (j in bad, tr)
+        nxt = {}
+        for kk, (rate, ops, t) in cur.items():
+            hit = None
+            for r2, o2 in hist_variants(rate, ops):
+                k2 = key(r2, o2)
+                if memo.get(k2, (False,))[0]:
+                    hit = (r2, o2, memo[k2][1])
+                    break
+            if hit is None:
+                final[kk] = (rate, ops, t)
+            else:
+                nxt[key(hit[0], hit[1])] = hit
+        cur = nxt
+    final.update(cur)
+    for kk, (rate, ops, t) in final.items():
+        sends = [o for o in ops if o[0] == "send"]
+        shape = ";".join("%s@avail%d" % (clsstr(o[4]) or "empty", o[3] - overhead(o[1], o[2])) for o in sends)
+        ctx.violation("history/lineRate-%s/%d-message(s)/ticks-between=%d/min-texts=%s" % ("set" if rate else "None", len(sends), sum(1 for o in ops if o[0] == "tick"), shape),
+                      "IRCClient(lineRate=%s) history %r: transport received %r" % (rate or None, [(o[1], "".join(map(chr, o[2])), "".join(map(chr, o[4])), o[3]) if o[0] == "send" else "tick" for o in ops],
+                                                                              [bytes(e["wrote"]) for e in t["ev"]]),
+                      dict(kind="hist", rate=rate, ops=[list(o) for o in ops]))
+
+
 def report(ctx, traces, rej):
     """Classify every TLC-rejected run (TLC decides each classification step too)."""
     rejected = [traces[x.idx] for x in rej]
+    report_hist(ctx, [t for t in rejected if t["cfg"]["mode"] == "hist"])
+    rejected = [t for t in rejected if t["cfg"]["mode"] != "hist"]
     sends = [t for t in rejected if t["cfg"]["mode"] == "split"]
     quotes = [t for t in rejected if t["cfg"]["mode"] != "split"]
     for t in quotes:
@@ -247,6 +450,8 @@ def report(ctx, traces, rej):
 
 
 def nontrivial(t):
+    if t["cfg"]["mode"] == "hist":
+        return len(t["ev"]) > 2
     e = t["ev"][0]
     if e["e"] == "send":
         return any(ch >= 128 or ch in (SPC, TAB, LF, CR) for ch in e["text"])
@@ -266,7 +471,16 @@ def run(ctx):
     rc = ctx.mc("IrcSplitMC", ctx.pick("IrcSplitChars.cfg", "IrcSplitChars.thorough.cfg"), label="control: character-counting splitter (violations printed)")
     if not rc.ok:
         raise MachineryError("IrcSplit control run failed: " + rc.error)
-    ctx.require_actions("IrcSplitMC", ["ExtendAny", "SendPack", "SendWords", "SendRefuse", "SendCharCount", "DoQuote"])
+    rf = ctx.mc("IrcSplitMC", ctx.pick("IrcSplitQueue.cfg", "IrcSplitQueue.thorough.cfg"), label="several messages through a FIFO send queue, all interleavings of sends and ticks")
+    if not rf.ok:
+        raise MachineryError("IrcSplit: FIFO queue model violates the per-message relation: " + rf.error)
+    rl = ctx.mc("IrcSplitMC", ctx.pick("IrcSplitLifo.cfg", "IrcSplitLifo.thorough.cfg"), label="control: LIFO queue (violations printed)")
+    if not rl.ok:
+        raise MachineryError("IrcSplit LIFO control run failed: " + rl.error)
+    if not extract_printed(rl.out, "CEXQ"):
+        raise MachineryError("vacuity: the per-message relation does not notice a reordering send queue")
+    ctx.extra["lifo_control_violations_found_by_tlc"] = len(extract_printed(rl.out, "CEXQ"))
+    ctx.require_actions("IrcSplitMC", ["ExtendAny", "SendPack", "SendWords", "SendRefuse", "SendCharCount", "DoQuote", "EnqueueAny", "TickFifo", "TickLifo"])
     cex = [json.loads(j) for j in sorted({v[1] for v in extract_printed(rc.out, "CEX")})]   # sorted: TLC workers print in any order
     if not cex:
         raise MachineryError("vacuity: the relation accepts the character-counting control splitter everywhere")
@@ -305,9 +519,28 @@ def run(ctx):
             traces.append(run_quote(level, text))
         for _ in range(ctx.pick(200, 5000)):
             traces.append(run_quote(level, [ctx.rng.choice(alpha + A2 + A4 + [32, 9]) for _ in range(ctx.rng.randint(0, 30))]))
+    # (5) histories: several messages on one client, with and without lineRate (send queue drained by a fake clock)
+    nh0 = len(traces)
+    letters = [97, 98, 99, 100, 101]
+    for rate in (0, 1):
+        for avail in (1, 2, 3):
+            for n in range(1, ctx.pick(4, 5) + 1):
+                for pat in itertools.product("LS", repeat=n):
+                    it = iter(letters)
+                    text = [next(it) if ch == "L" else SPC for ch in pat]
+                    for second in (False, True):
+                        for ticks in ((0, 1, 2) if second else (0,)):
+                            ops = [("send", "msg", [117, 49], overhead("msg", [117, 49]) + avail, text)]
+                            ops += [("tick",)] * ticks
+                            if second:
+                                ops.append(("send", "notice", [117, 50], overhead("notice", [117, 50]) + 1, [121, 122]))
+                            traces.append(run_history(rate, ops))
+    for i in range(ctx.pick(400, 6000)):
+        traces.append(run_history(*random_history(ctx.rng, small=(i % 2 == 0))))
+    ctx.extra["histories"] = len(traces) - nh0
     for t in traces:
         ctx.note_trace(t, nontrivial=nontrivial(t))
-    ctx.log("recorded %d real executions (%d exhaustive sends)" % (len(traces), nex))
+    ctx.log("recorded %d real executions (%d exhaustive sends, %d histories)" % (len(traces), nex, len(traces) - nh0))
 
     rej = ctx.validate("IrcSplitTrace", traces, shard_size=ctx.pick(2000, 5000))
     ctx.log("%d of %d real executions rejected by TLC" % (len(rej), len(traces)))
@@ -322,11 +555,15 @@ def run(ctx):
     ctx.impl_drift += len(rr)
 
     gs = [t for t in good if t["cfg"]["mode"] == "split" and t["ev"][0]["stream"]]
-    ctx.selftest_rejects("IrcSplitTrace", gs[-200:] + gq[-100:], mutate, n=24)
+    gh = [t for t in good if t["cfg"]["mode"] == "hist" and sum(len(e["wrote"]) for e in t["ev"]) > 40]
+    mix = [t for trio in itertools.zip_longest(gh[-120:], gs[-120:], gq[-120:]) for t in trio if t is not None]   # round-robin
+    ctx.selftest_rejects("IrcSplitTrace", mix, mutate, n=36)
 
 
 def replay(ctx, obj):
-    if obj.get("kind") == "quote":
+    if obj.get("kind") == "hist":
+        t = run_history(obj["rate"], [tuple(o) for o in obj["ops"]])
+    elif obj.get("kind") == "quote":
         t = run_quote(obj["level"], obj["text"])
     else:
         t = run_send(obj["cmd"], obj["user"], obj["limit"], obj["text"])
